@@ -145,6 +145,32 @@ if __name__ == "__main__":
                 meta = json.loads((d / "meta.json").read_text())
                 ids = sorted({k.split(":")[0] for k in meta.get("checks", {})}) or [meta["property"]]
                 verify(d.name, ids, "quick", False)
+    elif a[0] == "verify-all-par":
+        # the same, N seeds at a time (each in its own worktree and its own process); output per seed in out/verify-all/<name>.log
+        from concurrent.futures import ThreadPoolExecutor
+
+        jobs = int(a[1]) if len(a) > 1 else 6
+        only = a[2] if len(a) > 2 else ""  # optional substring filter
+        logdir = VERIF / "out" / "verify-all"
+        logdir.mkdir(parents=True, exist_ok=True)
+        work = []
+        for d in sorted(SEEDED.iterdir()):
+            if (d / "meta.json").exists() and only in d.name:
+                meta = json.loads((d / "meta.json").read_text())
+                ids = sorted({k.split(":")[0] for k in meta.get("checks", {})}) or [meta["property"]]
+                work.append((d.name, ids))
+
+        def one(w):
+            name, ids = w
+            r = sh([PY, str(Path(__file__).resolve()), "verify", name, "--checks", ",".join(ids), "--no-tests"])
+            (logdir / f"{name}.log").write_text(r.stdout + r.stderr)
+            lines = [l for l in r.stdout.splitlines() if " quick: " in l]
+            return name, lines
+
+        with ThreadPoolExecutor(max_workers=jobs) as ex:
+            for name, lines in ex.map(one, work):
+                for l in lines:
+                    print(l[:200], flush=True)
     elif a[0] == "table-md":
         rows = ["| seeded change | property | valid (demo passes unmodified, fails patched, repo suite passes patched) | caught by | not caught by (secondary checks) |", "|---|---|---|---|---|"]
         for d in sorted(SEEDED.iterdir()):
